@@ -132,7 +132,8 @@ class Scenario:
         return self.cfg[i][0] or DEF_PERIOD
 
     def line(self):
-        return 'NODE mode=%d ndev=%d src=%d q=40 t0=%d hb=1%s | %s' % (self.mode, self.ndev, self.src, self.t0, ' cold=1' if self.cold else '', ' ; '.join(self.ops))
+        return 'NODE mode=%d ndev=%d src=%d q=40 t0=%d hb=1%s%s | %s' % (self.mode, self.ndev, self.src, self.t0, ' cold=1' if self.cold else '',
+                                                                          ' onopen=%d,%d' % self.onopen if getattr(self, 'onopen', None) else '', ' ; '.join(self.ops))
 
 
 def pick_interval(r):
@@ -180,6 +181,8 @@ def cold_prefix(r, s, with_h):
         big = r.choice([1000, 60000, 10 ** 7, r.randint(300, 10 ** 6)])
         s.P(); s.T(big); s.P(); s.T(r.choice([big, 201, 250])); s.P(); s.T(r.choice([1, 201, big])); s.P()
     s.opened(s.t0 + 202)               # about; the oracle takes the open time from the trace
+    if getattr(s, 'onopen', None):
+        s.cfg = [[s.onopen[0], s.onopen[1], True] for _ in range(s.ndev)]
     s.pend_until = s.t + CLAIM_MS + 1
     s.last_read = s.t
 
@@ -301,6 +304,9 @@ def scenario(r, ndev=None, mode=None, cold=None, t0=None, n_eps=None, huge=False
     src = r.choice([0, 22, 100, 240 - ndev, 252 - ndev])
     s = Scenario(r, ndev, mode, src, t0, cold)
     if cold:
+        if r.random() < 0.35:
+            # the application configures the heartbeat from its OnOpen callback: Open() calls it last, after installing its own defaults
+            s.onopen = r.choice([(5000, 1000), (7000, 0), (1000, 10), (65536, 999), (2500, KEEP), (4000, 0)])
         cold_prefix(r, s, with_h=r.random() < 0.5)
     elif r.random() < 0.3:
         s.P()
@@ -420,6 +426,22 @@ def _judge(cfg, ops, per_op, sync0, sent_later):
             if active:
                 d.claim = ts + CLAIM_MS
 
+    def apply_H(iv, off, idev):
+        if iv == KEEP and off == 0xffff:
+            return
+        for i in targets(idev, ndev):
+            d = devs[i]
+            p, off1 = resolve(iv, off, d.period, d.offset)
+            if p == 0:
+                d.due, d.known = None, True
+                d.was_off_same = False
+            elif sync is None:
+                d.period, d.offset, d.due = p, off1, None       # before Open(): values are stored, Open() installs the defaults
+            elif (p, off1) != (d.period, d.offset) or (d.known and d.due is None):
+                d.was_off_same = (d.due is None and (p, off1) == (d.period, d.offset))
+                d.period, d.offset, d.known = p, off1, True
+                d.due = first_grid_after(sync, off1, p, t)
+
     if sync0 is not None:
         sync = sync0
         do_open(sync0)
@@ -435,6 +457,9 @@ def _judge(cfg, ops, per_op, sync0, sent_later):
         if opened_now and sync is None:
             sync = t
             do_open(t)
+            if cfg.get('onopen'):
+                # the application's OnOpen callback configures the heartbeat: it runs last in Open(), so its values stand (seeds C12-19, C13-19)
+                apply_H(int(cfg['onopen'][0]) & 0xffffffff, int(cfg['onopen'][1]) & 0xffffffff, None)
         # ---- every heartbeat frame, whatever produced it
         by_dev = {}
         for e in hbs:
@@ -501,19 +526,7 @@ def _judge(cfg, ops, per_op, sync0, sent_later):
         elif name == 'H' and len(o) >= 2:
             iv, off = int(o[1]) & 0xffffffff, (int(o[2]) & 0xffffffff if len(o) > 2 else 0)      # documented default offset: 0
             idev = int(o[3]) if len(o) > 3 else None
-            if not (iv == KEEP and off == 0xffff):
-                for i in targets(idev, ndev):
-                    d = devs[i]
-                    p, off1 = resolve(iv, off, d.period, d.offset)
-                    if p == 0:
-                        d.due, d.known = None, True
-                        d.was_off_same = False
-                    elif sync is None:
-                        d.period, d.offset, d.due = p, off1, None       # before Open(): values are stored, Open() installs the defaults
-                    elif (p, off1) != (d.period, d.offset) or (d.known and d.due is None):
-                        d.was_off_same = (d.due is None and (p, off1) == (d.period, d.offset))
-                        d.period, d.offset, d.known = p, off1, True
-                        d.due = first_grid_after(sync, off1, p, t)
+            apply_H(iv, off, idev)
         # ---- what a poll must do
         if name == 'P':
             if last_poll is not None and t - last_poll >= M32:
